@@ -92,6 +92,10 @@ func genC04Source(g *xast.G, c *evalCase, p *prepared) (*xast.Expr, string) {
 	}
 	// node-sets of every kind and order
 	var e *xast.Expr
+	if c.Events2 != nil && rapid.IntRange(0, 5).Draw(t, "foreign") == 0 {
+		// nodes of ANOTHER document of the same shape (same positions, other values)
+		return xast.Var("f"), "node-set:foreign"
+	}
 	switch rapid.IntRange(0, 8).Draw(t, "nsShape") {
 	case 0:
 		e = xast.Path(true, xast.DS("child", xast.NodeT()))
@@ -137,6 +141,18 @@ func TestC04(t *testing.T) {
 		}
 		elems, attrs, targets := docNames(p.doc)
 		g := &xast.G{T: t, Env: xast.GenEnv{ElemNames: queryable(elems), AttrNames: queryable(attrs), PITargets: targets, Prefixes: prefixesOf(c.NS), Nums: nums, NodeVars: []string{"v"}}}
+		// the second document: the first one with other text and attribute values; $f holds some of its nodes
+		for _, e := range c.Events {
+			if (e.K == "T" || e.K == "A") && e.Value != "" {
+				e.Value = []string{"1", "2", "abc", " 12 ", "x", "-0", "007"}[rapid.IntRange(0, 6).Draw(t, "value2")]
+			}
+			c.Events2 = append(c.Events2, e)
+		}
+		fb := varBinding{Local: "f", T: "nodes", Doc2: true}
+		for i, n := 0, rapid.IntRange(1, 4).Draw(t, "foreignSize"); i < n; i++ {
+			fb.Nodes = append(fb.Nodes, p.doc.All[rapid.IntRange(0, len(p.doc.All)-1).Draw(t, "foreignNode")].Ref())
+		}
+		c.Vars = append(c.Vars, fb)
 		src, cls := genC04Source(g, c, p)
 		wraps := []string{"string", "number", "boolean", "notnot", "plus0", "concat", "andtrue", "neg", "strlen", "pred", "bare", "roundtrip"}
 		// the implicit conversion of every argument position of the core library
@@ -172,6 +188,11 @@ func TestC04(t *testing.T) {
 			"or#2":              func(x *xast.Expr) *xast.Expr { return xast.Bin("or", xast.Call("false"), x) },
 			"and#2":             func(x *xast.Expr) *xast.Expr { return xast.Bin("and", xast.Call("true"), x) },
 			"lang#1":            func(x *xast.Expr) *xast.Expr { return xast.Call("lang", x) },
+			// compared with a boolean, the other operand converts with boolean()
+			"=true#1":   func(x *xast.Expr) *xast.Expr { return xast.Bin("=", x, xast.Call("true")) },
+			"=true#2":   func(x *xast.Expr) *xast.Expr { return xast.Bin("=", xast.Call("true"), x) },
+			"!=false#1": func(x *xast.Expr) *xast.Expr { return xast.Bin("!=", x, xast.Call("false")) },
+			"=false#2":  func(x *xast.Expr) *xast.Expr { return xast.Bin("=", xast.Call("false"), x) },
 			// operands of the relational operators convert with number() as well
 			">#1":  func(x *xast.Expr) *xast.Expr { return xast.Bin(">", x, xast.Num("0")) },
 			"<#2":  func(x *xast.Expr) *xast.Expr { return xast.Bin("<", xast.Num("0"), x) },
@@ -185,11 +206,26 @@ func TestC04(t *testing.T) {
 			wraps = append(wraps, k)
 		}
 		wrap = wraps[rapid.IntRange(0, len(wraps)-1).Draw(t, "wrap")]
+		if cls == "node-set:foreign" {
+			// compared with nodes of the queried document (string-values, whatever document they are in)
+			switch wrap {
+			case "bare", "pred", "<#1n":
+				wrap = "=nodes"
+			}
+		}
 		var e *xast.Expr
 		if f, ok := implicit[wrap]; ok {
 			e = f(src)
 		}
 		switch wrap {
+		case "=nodes":
+			e = xast.Bin([]string{"=", "!=", "<", ">="}[rapid.IntRange(0, 3).Draw(t, "foreignOp")], src, xast.Path(true, xast.DS("child", xast.NodeT())))
+			if rapid.Bool().Draw(t, "foreignAttrs") {
+				e.A[1] = xast.Path(true, xast.DS("attribute", xast.Any()))
+			}
+			if rapid.Bool().Draw(t, "foreignSwap") {
+				e.A[0], e.A[1] = e.A[1], e.A[0]
+			}
 		case "string", "number", "boolean":
 			e = xast.Call(wrap, src)
 		case "notnot":
